@@ -128,51 +128,8 @@ theorem active_not_deletable (kv : KV) (hinv : Inv kv) (n : String) (s : Secret)
 /-- failed calls change nothing (any caller, any fault script) -/
 theorem failed_calls_noop (kv : KV) (hinv : Inv kv) (c : Caller) (op : Op) (aok sok : Bool)
     (herr : (step Cfg.std kv c op aok sok).2.1.isError = true) :
-    (step Cfg.std kv c op aok sok).1 = kv := by
-  cases op with
-  | list => simp only [step]; split <;> rfl
-  | info n => simp only [step]; split <;> (try split) <;> rfl
-  | get n => simp only [step]; split <;> (try split) <;> rfl
-  | getVersion n v => simp only [step]; split <;> (try split) <;> rfl
-  | getCond n v =>
-    simp only [step]
-    split
-    · rfl
-    · split
-      · rfl
-      · split
-        · rfl
-        · split <;> rfl
-  | put n v =>
-    simp only [step] at herr ⊢
-    split; · rfl
-    split; · rfl
-    split; · rfl
-    split
-    · next kv2 k2 hp => simp_all [Res.isError]
-    · next kv2 er hp => simp only; exact KV.put_error_noop _ kv n v sok er kv2 hinv hp
-  | activate n v =>
-    simp only [step] at herr ⊢
-    split; · rfl
-    split; · rfl
-    split; · rfl
-    split
-    · next kv2 hp => simp_all [Res.isError]
-    · next kv2 er hp => simp only; exact KV.setActive_error_noop kv n v sok er kv2 hp
-  | deleteVersion n v =>
-    simp only [step] at herr ⊢
-    split; · rfl
-    split; · rfl
-    split
-    · next kv2 hp => simp_all [Res.isError]
-    · next kv2 er hp => simp only; exact KV.deleteVersion_error_noop kv n v sok er kv2 hp
-  | delete n =>
-    simp only [step] at herr ⊢
-    split; · rfl
-    split; · rfl
-    split
-    · next kv2 hp => simp_all [Res.isError]
-    · next kv2 er hp => simp only; exact KV.deleteSecret_error_noop kv n sok er kv2 hp
+    (step Cfg.std kv c op aok sok).1 = kv :=
+  MonSound.failed_calls_noop kv hinv c op aok sok herr
 
 /-- version 0, an empty name and a reserved name are refused without any change -/
 theorem invalid_arguments_refused (kv : KV) (c : Caller) (aok sok : Bool) (n : String) (v : Bytes) :
@@ -269,16 +226,18 @@ theorem reads_total_on_model (kv : KV) (c : Caller) (op : Op) (aok sok : Bool) :
       exact this
     | _ => simp [c02_reads_total, obsOf]
 
-/-- ...and so does it satisfy `failed_noop`, `frame`, `reads`, `delete_version` and `active`, in every state that satisfies the
+/-- ...and so does it satisfy `failed_noop`, `frame`, `reads`, `delete_version`, `active` and `bytes_stable`, in every state that satisfies the
 store invariant (every reachable one) -/
 theorem monitors_sound (kv : KV) (hinv : Inv kv) (c : Caller) (op : Op) (aok sok : Bool) :
     c02_failed_noop (MonSound.obsOf kv c op aok sok) = true ∧
     c02_frame (MonSound.obsOf kv c op aok sok) = true ∧
     c02_reads (MonSound.obsOf kv c op aok sok) = true ∧
     c02_delete_version (MonSound.obsOf kv c op aok sok) = true ∧
-    c02_active (MonSound.obsOf kv c op aok sok) = true := by
+    c02_active (MonSound.obsOf kv c op aok sok) = true ∧
+    c02_bytes_stable (MonSound.obsOf kv c op aok sok) = true := by
   refine ⟨?_, MonSound.c02_frame_sound kv c op aok sok hinv, MonSound.c02_reads_sound kv c op aok sok,
-          MonSound.c02_delete_version_sound kv c op aok sok hinv, MonSound.c02_active_sound kv c op aok sok hinv⟩
+          MonSound.c02_delete_version_sound kv c op aok sok hinv, MonSound.c02_active_sound kv c op aok sok hinv,
+          MonSound.c02_bytes_stable_sound kv c op aok sok hinv⟩
   simp only [c02_failed_noop, MonSound.obsOf]
   by_cases h : (step Cfg.std kv c op aok sok).2.1.isError = true
   · simp [h, failed_calls_noop kv hinv c op aok sok h]
